@@ -181,6 +181,9 @@ def shared_generator_run(rng):
 
 
 def run_shard(campaign, shard, nshards, seed, tier):
+    if campaign == 'api':
+        import apiuse
+        return apiuse.run_api('C17', shard, nshards, seed, tier)
     if campaign == 'shared':
         part = Part()
         rng = random.Random('%s/%s/%s' % (seed, campaign, shard))
@@ -295,4 +298,6 @@ def run(ctx):
     run_sharded(ctx, 'C17', 'generator')
     run_sharded(ctx, 'C17', 'blocking')
     run_sharded(ctx, 'C17', 'shared', nshards=4)
-    return RULE, ASSUME
+    run_sharded(ctx, 'C17', 'api', nshards=2)
+    import apiuse
+    return RULE + apiuse.rule_text('C17'), ASSUME
